@@ -112,18 +112,19 @@ func (f *failingTokens) GetTokenByValue(t string) (*domains.Token, error) {
 }
 
 type authSim struct {
-	r                         *Run
-	w                         *World
-	admin                     string
-	live                      []string
-	revoked                   []string
-	ws                        websocket.Server
-	srv                       *http.Server
-	lis                       *simListener
-	failTok                   bool
-	sqlFaults, failNextCommit bool
-	useAuth                   bool
-	wsChecks                  int
+	r                             *Run
+	w                             *World
+	admin                         string
+	live                          []string
+	revoked                       []string
+	ws                            websocket.Server
+	srv                           *http.Server
+	lis                           *simListener
+	failTok                       bool
+	sqlFaults, failNextCommit     bool
+	sqlLookupFaults, failTokQuery bool
+	useAuth                       bool
+	wsChecks                      int
 }
 
 func authsimExec(r *Run) {
@@ -157,13 +158,21 @@ func authsimRun(r *Run) {
 	// a third of the C10 runs go through the wrapper SQL driver, which can make the COMMIT of a create / revoke fail
 	a.sqlFaults = r.Prop == "C10" && t.Chance(1, 3, "sql-faults")
 	r.Cfg["sql_faults"] = a.sqlFaults
+	// half of the C09 runs go through the wrapper driver as well: there the token LOOKUP can fail below the repository
+	// (SQLITE_BUSY while another connection holds the write lock), not only the repository call as a whole
+	a.sqlLookupFaults = r.Prop == "C09" && t.Chance(1, 2, "sql-lookup-faults")
+	r.Cfg["sql_lookup_faults"] = a.sqlLookupFaults
 	defer func() { sqlFail = nil }()
-	if a.sqlFaults {
+	if a.sqlFaults || a.sqlLookupFaults {
 		sqlFail = func(op, q string) error {
 			if op == "commit" && a.failNextCommit {
 				a.failNextCommit = false
 				r.Fault("commit-error")
 				return errors.New("simnet: database is locked (SQLITE_BUSY) at COMMIT")
+			}
+			if op == "query" && a.failTokQuery && strings.Contains(strings.ToLower(q), "tokens") {
+				r.Fault("token-query-error")
+				return errors.New("simnet: database is locked (SQLITE_BUSY)")
 			}
 			return nil
 		}
@@ -195,7 +204,7 @@ func authsimRun(r *Run) {
 		case 3:
 			a.stopWS()
 			w.Close()
-			if a.sqlFaults {
+			if a.sqlFaults || a.sqlLookupFaults {
 				w.OpenSim()
 			} else {
 				w.Open()
@@ -378,7 +387,14 @@ func (a *authSim) authenticate() {
 	t := a.r.T
 	all := append(append([]string{a.admin, "never-issued"}, a.live...), a.revoked...)
 	tok := all[t.Draw(len(all), "auth-tok")]
-	a.checkToken(tok, "authenticate", t.Chance(1, 3, "via-ws"), t.Chance(1, 2, "via-data-route"))
+	viaWS, viaData := t.Chance(1, 3, "via-ws"), t.Chance(1, 2, "via-data-route")
+	// "creating or revoking one token never changes the validity of any other": also while the create / revoke of
+	// another token is still in flight on another pooled connection (write transaction open on the tokens table)
+	if t.Chance(1, 4, "auth-during-token-write") {
+		a.w.WithWriteInFlight("tokens", "token", func() { a.checkToken(tok, "authenticate-during-write", viaWS, viaData) })
+		return
+	}
+	a.checkToken(tok, "authenticate", viaWS, viaData)
 }
 
 func (a *authSim) checkToken(tok, when string, viaWS, viaData bool) {
@@ -441,6 +457,14 @@ func (a *authSim) creds() []cred {
 		{"no-space", "Bearer" + a.admin},
 		{"unknown", "Bearer not-a-token"},
 		{"admin", "Bearer " + a.admin},
+		// near misses of the admin token
+		{"admin+suffix", "Bearer " + a.admin + "x"},
+		{"admin-prefix", "Bearer " + a.admin[:len(a.admin)-1]},
+		{"admin-othercase", "Bearer " + swapCase(a.admin)},
+	}
+	if len(a.live) > 0 {
+		u := a.live[0]
+		cs = append(cs, cred{"user+suffix", "Bearer " + u + "0"}, cred{"user-prefix", "Bearer " + u[:len(u)-1]})
 	}
 	if len(a.revoked) > 0 {
 		cs = append(cs, cred{"revoked", "Bearer " + a.revoked[len(a.revoked)-1]})
@@ -449,6 +473,22 @@ func (a *authSim) creds() []cred {
 		cs = append(cs, cred{"user", "Bearer " + a.live[0]})
 	}
 	return cs
+}
+
+func swapCase(s string) string {
+	b := []byte(s)
+	for i, c := range b {
+		switch {
+		case c >= 'a' && c <= 'z':
+			b[i] = c - 32
+		case c >= 'A' && c <= 'Z':
+			b[i] = c + 32
+		}
+	}
+	if string(b) == s {
+		return s + "_"
+	}
+	return string(b)
 }
 
 func concretePath(p string) string {
@@ -563,8 +603,13 @@ func (a *authSim) failClosed() {
 		return
 	}
 	r := a.r
-	a.failTok = true
-	defer func() { a.failTok = false }()
+	if a.sqlLookupFaults && r.T.Chance(2, 3, "lookup-fault-in-driver") {
+		a.failTokQuery = true
+		defer func() { a.failTokQuery = false }()
+	} else {
+		a.failTok = true
+		defer func() { a.failTok = false }()
+	}
 	r.Fault("token-lookup-error")
 	for _, tok := range append([]string{"not-a-token"}, a.live...) {
 		before := a.digests()
